@@ -273,8 +273,11 @@ async fn standin_scheme_never_plain() {
     use crate::info::HasTlsConnectionInfo as _;
     fixtures::tls_install_default();
     for scheme in ["https", "wss", "http", "ws"] {
-        for host in HOSTS {
-            for port in ["", ":8443"] {
+        for (hi, host) in HOSTS.iter().enumerate() {
+            // every host without a port and with a neutral one; the first four hosts also with the ports that "mean" a
+            // scheme elsewhere (80, 443) and port 1: the scheme alone decides, never the port
+            let ports: &[&str] = if hi < 4 { &["", ":8443", ":80", ":443", ":1"] } else { &["", ":8443"] };
+            for port in ports {
                 let uri = format!("{scheme}://{host}{port}/p");
                 let Some(parts) = parts_for(&uri) else { continue };
                 let secure = scheme == "https" || scheme == "wss";
